@@ -157,6 +157,7 @@ class Interp:
         self.mod = Module(os.path.join(repo, relpath), relpath)
         self.fresh = {}            # fresh leaf name -> IR term of its value
         self.branch_checks = []    # (leaf, term, occurs?) decided for autograd None branches
+        self.truth_consulted = set()   # numeric parameters whose truthiness was tested
         self.raised = None
 
     # ------------------------------------------------------------------ errors
@@ -339,21 +340,25 @@ class Interp:
         return self.as_bool(node, v)
 
     def as_bool(self, node, v):
+        if ir.is_term(v):
+            if v[0] == 'par':
+                # truthiness of a NUMERIC parameter (`if self.x:` / `not self.x` / `a and b`): the value 0 is falsy.
+                # The mode may fix it (par_truth); otherwise the default is used and the use is recorded, and
+                # gen.run_target re-runs the target with the other default and refuses when the result differs.
+                self.truth_consulted.add(v[1])
+                flag = self.par_truth.get(v[1], self.par_truth_default)
+                return flag
+            self.err(node, f'truthiness of a symbolic tensor: {ast.unparse(node)}')
         if v is None or isinstance(v, (bool, int, str, list, tuple, dict, set)):
             return bool(v)
         if isinstance(v, float):
             return bool(v)
         if isinstance(v, (FunSym, NetSym, Obj, Closure)):
             return True
-        if ir.is_term(v) and v[0] == 'par':
-            # truthiness of a numeric parameter: the configuration mode must say so
-            flag = self.par_truth.get(v[1])
-            if flag is None:
-                self.err(node, f'truthiness of symbolic parameter {v[1]} is not fixed by the mode')
-            return flag
         self.err(node, f'test is not a configuration predicate: {ast.unparse(node)} ({type(v).__name__})')
 
     par_truth = {}
+    par_truth_default = True
 
     # ------------------------------------------------------------------ expressions
     def eval(self, n, env):
